@@ -12,7 +12,13 @@ NONTRIVIAL_FEATS = {'loop', 'exception', 'yield', 'generator-driven', 'recursion
 
 
 def make_case(rng, twins_both=True):
-    prog = progs.gen_program(rng, opts={'renable': True} if rng.fork('renable').chance(1, 3) else None)
+    r0 = rng.fork('renable')
+    o = {}
+    if r0.chance(1, 3):
+        o['renable'] = True
+    if r0.chance(1, 3):
+        o['snaps'] = True            # statistics read (get_stats / print_stats / dump_stats in turn) from inside running profiled code
+    prog = progs.gen_program(rng, opts=o or None)
     names = [n for (_f, n, _k) in prog['funcs']]
     twin = [n for n in names if n.endswith('t')]
     k = rng.below(len(names)) + 1
